@@ -561,6 +561,7 @@ func stress(seed int64, ms, mix, procs int, stdout *os.File) {
 	defer os.RemoveAll(e.dir)
 	e.res.Mode, e.res.Seed, e.res.Mix, e.res.Procs = "stress", seed, mix, procs
 	dumpExtra = func() string {
+		e.dumpObjects()
 		e.mu.Lock()
 		defer e.mu.Unlock()
 		b, _ := json.Marshal(e.res.Panics)
@@ -584,6 +585,7 @@ func stress(seed int64, ms, mix, procs int, stdout *os.File) {
 		start(func() { e.feeder(base+1, &stop, &wg) })
 		start(func() { e.purger(base+2, &stop, &wg) })
 		start(func() { e.caller("api1", base+3, e.opsQuery(), &stop, &wg) })
+		start(func() { e.sampler(&stop, &wg) })
 		switch mix % 4 {
 		case 0:
 			start(func() { e.caller("api2", base+4, e.opsQuery(), &stop, &wg) })
@@ -611,7 +613,8 @@ func stress(seed int64, ms, mix, procs int, stdout *os.File) {
 		var stop int32
 		var wg sync.WaitGroup
 		base := seed*1000 + 900
-		wg.Add(3)
+		wg.Add(4)
+		go e.sampler(&stop, &wg)
 		go e.feeder(base+1, &stop, &wg)
 		go e.purger(base+2, &stop, &wg)
 		go e.caller("api1", base+3, e.opsQuery(), &stop, &wg)
@@ -648,9 +651,14 @@ func stress(seed int64, ms, mix, procs int, stdout *os.File) {
 	case <-time.After(3 * time.Second):
 		dumpAndExit("packet loop did not end after Close")
 	}
+	// Close slept 1 s already; give the goroutines of the library up to 1.5 s more of a loaded machine
 	time.Sleep(300 * time.Millisecond)
+	for i := 0; i < 12 && len(census()) > 0; i++ {
+		time.Sleep(100 * time.Millisecond)
+	}
 	e.res.Alive = census()
 	watchdog.Stop()
+	e.dumpObjects()
 	e.res.Notes = atomic.LoadInt64(&e.notes)
 	e.res.Written = atomic.LoadInt64(&e.conn.Written)
 	out, _ := json.Marshal(e.res)
